@@ -30,6 +30,9 @@ func init() {
 				NeedCounters: []string{"answer-after-send-deadline-delivered"}},
 			{Name: "send-best-effort", Mode: "enum", Bound: b, Reset: kit.ResetGlobals, Body: func() { sendModes("besteffort") },
 				NeedCounters: []string{"best-effort-returned-at-once", "best-effort-dropped"}},
+			{Name: "recv-deadline-while-a-send-waits", Mode: "enum", Bound: b, Reset: kit.ResetGlobals, Body: recvWhileSendWaits,
+				NeedCounters: []string{"recv-timeout-exact-beside-waiting-send"}},
+			{Name: "two-senders-one-slot-each-with-the-deadline", Mode: "sched", Bound: b + 1, Reset: kit.ResetGlobals, Body: twoSendersOneSlot},
 			{Name: "fail-no-peers", Mode: "enum", Bound: b, Reset: kit.ResetGlobals, Body: failNoPeers,
 				NeedCounters: []string{"nopeers-at-call", "nopeers-when-last-peer-leaves", "one-of-two-peers-leaves", "peers-come-and-go"}},
 		}
@@ -349,6 +352,125 @@ func sendModes(mode string) {
 		kit.Count("send-no-deadline-waits")
 	}
 	kit.Observe("%s d=%v accepted=%d", k.Name, d, len(accepted))
+	kit.Must("Close", func() { _ = x.S.Close() })
+}
+
+// recvWhileSendWaits: a Send with no deadline waits (the peer takes nothing, the queue of one is
+// full) while another thread calls Recv with a receive deadline d, and then SetOption / GetOption.
+// Each call obeys its own deadline: Recv returns ErrRecvTimeout exactly d after it was called, the
+// option calls return at once, and the Send is still waiting; when the peer takes again, it completes.
+func recvWhileSendWaits() {
+	var ks []*kinds.Kind
+	for _, k := range kinds.All {
+		switch k.Name {
+		case "req", "surveyor", "rep", "respondent": // a Send changes what Recv waits for
+			continue
+		}
+		if k.CanSend && k.CanRecv {
+			ks = append(ks, k)
+		}
+	}
+	k := ks[kit.ChooseFree(len(ks))]
+	d := []time.Duration{50 * time.Millisecond, 2 * time.Second}[kit.ChooseFree(2)]
+	x := k.OpenQ("c18w", true, 1)
+	x.Quiet()
+	_ = x.S.SetOption(mangos.OptionWriteQLen, 1)
+	if err := x.S.SetOption(mangos.OptionRecvDeadline, d); err != nil {
+		kit.Failf("recv-deadline-set:"+k.Name, "SetOption(RecvDeadline,%v): %s", d, kit.ErrName(err))
+	}
+	sc, _ := blockSend(x, "ws")
+	if sc == nil {
+		return
+	}
+	rc := kit.Start("Recv", func() (interface{}, error) { return x.Recv() })
+	kit.Quiesce()
+	oc := kit.Start("GetOption", func() (interface{}, error) { return x.S.GetOption(mangos.OptionRecvDeadline) })
+	kit.Quiesce()
+	if !oc.Done() || oc.Err != nil || oc.Val.(time.Duration) != d {
+		kit.Failf("option-call-held-up:"+k.Name, "%s: a Send is waiting for queue space; GetOption(RecvDeadline) called meanwhile: done=%v %s %v", k.Name, oc.Done(), kit.ErrName(oc.Err), oc.Val)
+	}
+	kit.Sleep(d - time.Nanosecond)
+	kit.Quiesce()
+	if rc.Done() {
+		kit.Failf("recv-deadline-early:"+k.Name, "%s: Recv with deadline %v returned %s after only %v", k.Name, d, kit.ErrName(rc.Err), rc.T1-rc.T0)
+	}
+	kit.Sleep(time.Nanosecond)
+	kit.Quiesce()
+	if !rc.Done() || rc.Err != mangos.ErrRecvTimeout || rc.T1-rc.T0 != d {
+		kit.Failf("recv-deadline-beside-waiting-send:"+k.Name, "%s: a Send (no deadline) is waiting for queue space; Recv with deadline %v called meanwhile: done=%v %s after %v, want ErrRecvTimeout after exactly the deadline", k.Name, d, rc.Done(), kit.ErrName(rc.Err), kit.Now()-rc.T0)
+	}
+	if sc.Done() {
+		kit.Failf("send-zero-deadline-fired:"+k.Name, "%s: the waiting Send (no deadline) returned %s", k.Name, kit.ErrName(sc.Err))
+	}
+	x.P.Hold(false)
+	kit.Quiesce()
+	if !sc.Done() || sc.Err != nil {
+		kit.Failf("send-zero-deadline-result:"+k.Name, "%s: the peer takes everything now, waiting Send: done=%v %s", k.Name, sc.Done(), kit.ErrName(sc.Err))
+	}
+	kit.Count("recv-timeout-exact-beside-waiting-send")
+	kit.Observe("%s d=%v", k.Name, d)
+	kit.Must("Close", func() { _ = x.S.Close() })
+}
+
+// twoSendersOneSlot: the peer takes nothing and exactly one queue slot is free; two threads call
+// Send at the same moment with a send deadline d.  Under every interleaving each call returns by
+// its deadline: nil for the one that got the slot, ErrSendTimeout - exactly d after the call - for
+// the other (or for both, should the slot have gone meanwhile); none waits on.
+func twoSendersOneSlot() {
+	var ks []*kinds.Kind
+	for _, n := range []string{"xreq", "push", "xpush", "pair", "xpair", "xrep", "xrespondent", "pair1"} {
+		ks = append(ks, kinds.ByName(n))
+	}
+	k := ks[kit.ChooseFree(len(ks))]
+	d := 50 * time.Millisecond
+	x := k.OpenQ("c18t", true, 1)
+	x.Quiet()
+	_ = x.S.SetOption(mangos.OptionWriteQLen, 1)
+	blocked, accepted := blockSend(x, "fill")
+	if blocked == nil {
+		return
+	}
+	// make room for exactly one: the peer takes one message
+	if err := x.S.SetOption(mangos.OptionSendDeadline, d); err != nil {
+		return
+	}
+	x.P.Take(1)
+	kit.Quiesce()
+	if !blocked.Done() || blocked.Err != nil {
+		kit.Failf("setup", "%s: the waiting Send did not complete when the peer took one message (accepted before: %d)", k.Name, len(accepted))
+	}
+	x.P.Take(1)
+	kit.Quiesce()
+	x.PrepSend()
+	m1, m2 := x.Msg("sender-1"), x.Msg("sender-2")
+	t0 := kit.Now()
+	c1 := kit.Start("Send1", func() (interface{}, error) { return nil, x.S.SendMsg(m1) })
+	c2 := kit.Start("Send2", func() (interface{}, error) { return nil, x.S.SendMsg(m2) })
+	kit.Quiesce()
+	kit.Sleep(d)
+	kit.Quiesce()
+	okc := 0
+	for i, c := range []*kit.Call{c1, c2} {
+		if !c.Done() {
+			kit.Failf("send-deadline-ignored:"+k.Name, "%s: two Sends at once with SendDeadline %v and one free queue slot: Send %d is still waiting %v after the call", k.Name, d, i+1, kit.Now()-t0)
+		}
+		switch {
+		case c.Err == nil:
+			okc++
+		case c.Err == mangos.ErrSendTimeout:
+			if c.T1-c.T0 != d {
+				kit.Failf("send-deadline-result:"+k.Name, "%s: Send %d timed out after %v, the deadline is %v", k.Name, i+1, c.T1-c.T0, d)
+			}
+			if i == 0 {
+				m1.Free()
+			} else {
+				m2.Free()
+			}
+		default:
+			kit.Failf("send-deadline-result:"+k.Name, "%s: Send %d returned %s", k.Name, i+1, kit.ErrName(c.Err))
+		}
+	}
+	kit.Observe("%s ok=%d", k.Name, okc)
 	kit.Must("Close", func() { _ = x.S.Close() })
 }
 
